@@ -727,6 +727,9 @@ func (c *FnCtx) havoc(st *State, li *loopInfo) {
 				if ax := c.closureAxiom(n, base, c.alloc(st)); ax != "" {
 					st.addDef(ax)
 				}
+				if fi := c.frameInvariant(base, n); fi != "" {
+					st.addDef(fi)
+				}
 			}
 		}
 		if oldAlloc != "" {
